@@ -3,9 +3,19 @@ package main
 
 import "verif/lib/harness"
 
+func assumptions(h *harness.H) {
+	h.Assume("'gossip has quiesced' is OBSERVED, not timed: every up node answers an empty operation message (the real handler returns its infected set) with no operations on 8 consecutive probes 4 gossip intervals apart and no operation-carrying message is delivered in between; a failing checkpoint is re-taken after 50 such probes; watchdog 45 s -> inconclusive")
+	h.Assume("clusters run on aspen/transport/mock (Go values are passed, nothing is serialised) wrapped by a client-side fault decorator; KV gossip interval 5 ms, membership gossip 10 ms; RecoveryThreshold is the default 5 (not settable through aspen.Open)")
+	h.Assume("a restarting node accepts no inbound message until aspen.Open has returned (with the real transports Serve() follows kv.Open); only one node is down at a time (kv.Open fails while any known peer is unreachable)")
+	h.Assume("the signature of a stale (node,key) pair in the random cluster layer is INFERRED from what the transport decorator saw (feedback digests delivered per holder, high-water mark at restart); the verdict itself is the engine-state comparison")
+	h.SetExtra("recovery_threshold", recoveryThreshold)
+}
+
 func main() {
 	harness.Main("C06", "fault_enumeration",
+		harness.Layer{Name: "assumptions", Run: assumptions},
 		harness.Layer{Name: "ingress", Run: layerIngress},
+		harness.Layer{Name: "store", Run: layerStore},
 		harness.Layer{Name: "directed", Run: layerDirected},
 		harness.Layer{Name: "cluster", Run: layerCluster},
 	)
